@@ -120,6 +120,12 @@ let parse_word (o : string) : pword =
   | 'R', [h; lg; sv; tag; its] when String.length h = 1 ->
       (* the named local moved into another variable half-way: the same statement (LogProofs.named_moved_same) *)
       POp (ONamed (CNormal, parse_logger lg, sev_of_int (digit sv.[0] 6), parse_tag tag, parse_items its))
+  | 'B', [h; lg; sv; tag; its] when String.length h = 2 && (h.[1] = '1' || h.[1] = '2' || h.[1] = '3') ->
+      (* other declaration forms of the named local (by value / by reference, from the plain call / from a << chain):
+         the same statement (LogProofs.named_from_chain_same) *)
+      let items = parse_items its in
+      if h.[1] <> '2' && (match items with (IStr _ | INum _ | ICall (KFunctor, _, _)) :: _ -> false | _ -> true) then raise Bad
+      else POp (ONamed (CNormal, parse_logger lg, sev_of_int (digit sv.[0] 6), parse_tag tag, items))
   | 'D', [h; lg; sv; msg] when String.length h = 1 -> PDirect (parse_logger lg, sev_of_int (digit sv.[0] 6), str_of_hex msg)
   | 'K', [_; lg; sv] -> PKind (parse_logger lg, sev_of_int (digit sv.[0] 6))
   | _ -> raise Bad
